@@ -115,6 +115,25 @@ class C12(Prop):
                         ):
                             yield {"kind": "src", "src": src, "templates": {}, "data": datas}
 
+        # state that is keyed by how a tag is written: the same items spelled differently in two cycle tags
+        # (str() writes one canonical spelling), template names with quotes in them
+        spell = [("'a', 'b'", '"a", "b"'), ("1.0, 2", "1.00, 2"), ("nil, 'x'", "null, 'x'"), ("x.y, 1", "x['y'], 1"),
+                 ("100, 2", "1e2, 2"), ("'it\\'s', 2", '"it\'s", 2'), ("g: 'a', 'b'", "'g': 'a', 'b'"),
+                 ("'a', 'b'", "'a',  'b'")]
+        for one, two in spell:
+            for wrap in ("{% cycle ONE %}<{% cycle TWO %}>{% cycle ONE %}|{% cycle TWO %}",
+                         "{% for i in (1..3) %}{% cycle ONE %}{% cycle TWO %}{% endfor %}",
+                         "{% liquid cycle ONE\ncycle TWO\n%}{% cycle ONE %}{% cycle TWO %}"):
+                yield {"kind": "src", "src": wrap.replace("ONE", one).replace("TWO", two), "templates": {},
+                       "data": [{"x": {"y": "Y"}}]}
+        quoted = {"it's": "[apostrophe]", 'say "hi"': "[quotes]", "a\\b": "[backslash]", "$x": "[dollar]", "a b": "[space]"}
+        for name in quoted:
+            for q in ("'", '"'):
+                lit = q + name.replace("\\", "\\\\").replace(q, "\\" + q) + q
+                for tag in ("include", "render"):
+                    yield {"kind": "src", "src": "[{% " + tag + " " + lit + " %}]{% " + tag + " " + lit + ", a: 1 %}",
+                           "templates": quoted, "data": [{}]}
+
     def budget_s(self, tier: str) -> float:
         return 240 if tier == "quick" else 3000
 
